@@ -4,19 +4,23 @@ from checks.resource_common import *
 
 def plan(tier):
     qs = []
-    sets = [(2, 1, 16), (3, 1, 22)] if tier == 'quick' else [(2, 1, 16), (2, 2, 30), (3, 1, 22), (4, 1, 30)]
+    sets = [(2, 1, 16), (3, 1, 22)] if tier == 'quick' else [(2, 1, 16), (2, 2, 30), (3, 1, 22)]
     for n, pairs, K in sets:
         for progs in multisets(n, pairs):
             name = 'fifo_%s' % '_'.join(progs)
             qs.append(ResQuery(name, progs, harness_defs=['ORACLE_C03=1'], K=K, timeout=1500 if tier == 'quick' else 3000,
                                desc={'threads': list(progs), 'symbolic': 'the schedule (%d thread choices)' % K, 'events': 'issued (before the call), parked (first cv_wait of the call), granted (call returned)'}))
+    if tier != 'quick':
+        # four parties: a reader holds, a writer parks, a reader parks behind it, another reader arrives
+        qs.append(ResQuery('fifo_R_W_R_R', ('R', 'W', 'R', 'R'), harness_defs=['ORACLE_C03=1'], K=28, timeout=5400,
+                           desc={'threads': ['R', 'W', 'R', 'R'], 'symbolic': 'the schedule (28 thread choices)', 'events': 'issued / parked / granted'}))
     return qs
 
 
 def run(tier, seed):
     ck = ResCheck('C03', tier, seed)
     qs = plan(tier)
-    ck.bounds = {'threads': '2..3 x 1 pair' if tier == 'quick' else '2 x <=2 pairs, 3..4 x 1 pair', 'schedule length': 'K steps per query (prefix-closed)', 'outside': 'more threads / longer programs; weak memory'}
+    ck.bounds = {'threads': '2..3 x 1 pair' if tier == 'quick' else '2 x <=2 pairs, 3 x 1 pair', 'schedule length': 'K steps per query (prefix-closed)', 'outside': 'more threads / longer programs; weak memory'}
     ck.assumptions = COMMON_ASSUME + ['"already waiting" = observed parked inside lock*() (first condition-variable wait of that call) before the later call was issued; ties between truly concurrent calls are not constrained',
                                       'batch exception: two reads with no write request parked between them may be granted together, in any order']
     ck.collect_functions([H, os.path.join(ck.ws.prepare_repo(), 'src/threading/rwp/Resource.cpp')], ['NW=2', 'P0=5', 'P1=1', 'ORACLE_C03=1'])
